@@ -13,7 +13,7 @@ use serde_json::{json, Value};
 use std::sync::Mutex;
 
 pub const ID: &str = "C18";
-pub const FAMS: [&str; 2] = ["default-placement", "override"];
+pub const FAMS: [&str; 3] = ["default-placement", "override", "raster-route"];
 
 pub fn jobs(ctx: &Ctx) -> Vec<RJob> {
     let mut out = Vec::new();
@@ -36,6 +36,35 @@ pub fn jobs(ctx: &Ctx) -> Vec<RJob> {
                 };
                 out.push(RJob { job, spec });
             }
+        }
+    }
+    // the same options given to the raster builder (`ImageBuilder` forwards the image_* setters): the frame must sit in
+    // the pixmap where the SVG document of the same options puts it. Square frame in an opaque colour no module has,
+    // a fully transparent embedded image, 8 px per module, requests on a half-module grid (edges on pixel boundaries)
+    {
+        let mut rng = Rng::new(ctx.seed ^ 0x7a57e7);
+        for i in 0..ctx.tier.pick(160usize, ctx.scale(4_000)) {
+            k += 1;
+            let v = 1 + rng.below(12);
+            let size = (17 + 4 * v) as f64;
+            let margin = rng.below(5);
+            let s_units = size + 2.0 * margin as f64;
+            let job = Job { fam: FAMS[2], class: 2, mode: Some(2), level: Some(rng.below(4)), version: Some(v), mask: Some(rng.below(8)), len: 1 + rng.below(5), gen: 0, seed: mix(ctx.seed, k), ..Default::default() };
+            let mut spec = Spec { margin: Some(margin), image: Some(String::new()), image_bg_shape: Some(0), image_bg_color: Some(crate::render::Colour::Rgb([255, 0, 0])), ..Default::default() };
+            let half = |rng: &mut Rng, lo: f64, hi: f64| ((lo + (hi - lo) * rng.f64()) * 2.0).round() / 2.0;
+            let which = if i % 4 == 0 { 0 } else { 1 + rng.below(7) };
+            if which & 1 != 0 {
+                spec.image_size = Some(half(&mut rng, 2.0, size * 0.3));
+            }
+            if which & 2 != 0 {
+                spec.image_gap = Some(half(&mut rng, 0.0, 3.0));
+            }
+            if which & 4 != 0 {
+                // well inside the picture, so that the whole frame is visible
+                spec.image_position = Some((half(&mut rng, s_units * 0.35, s_units * 0.65), half(&mut rng, s_units * 0.35, s_units * 0.65)));
+            }
+            spec.fit_width = Some((s_units * 8.0) as u32);
+            out.push(RJob { job, spec });
         }
     }
     // overrides: sampled reals
@@ -108,7 +137,106 @@ fn frame_and_image(svg: &str) -> Result<(Elem, Elem), (String, String)> {
 /// widths observed for defaults: (shape, margin, version) -> width, checked for monotonicity at the end
 type Widths = Mutex<Vec<(usize, usize, usize, f64)>>;
 
+fn base64(b: &[u8]) -> String {
+    const T: &[u8; 64] = b"ABCDEFGHIJKLMNOPQRSTUVWXYZabcdefghijklmnopqrstuvwxyz0123456789+/";
+    let mut o = String::with_capacity(b.len() * 4 / 3 + 4);
+    for c in b.chunks(3) {
+        let n = (c[0] as u32) << 16 | (*c.get(1).unwrap_or(&0) as u32) << 8 | *c.get(2).unwrap_or(&0) as u32;
+        o.push(T[(n >> 18) as usize & 63] as char);
+        o.push(T[(n >> 12) as usize & 63] as char);
+        o.push(if c.len() > 1 { T[(n >> 6) as usize & 63] as char } else { '=' });
+        o.push(if c.len() > 2 { T[n as usize & 63] as char } else { '=' });
+    }
+    o
+}
+
+/// family "raster-route": the frame measured in the pixmap against the frame element of the SVG document
+fn observe_raster(st: &mut Stats, rj: &RJob) {
+    let cfg = rj.job.config();
+    st.eval();
+    let qr = match adapter::build(&cfg) {
+        Outcome::Ok(q) => q,
+        other => {
+            st.violation(ID, "no-symbol", format!("crate returned {}", other.describe()), rj.to_json());
+            return;
+        }
+    };
+    let fail = |st: &mut Stats, kind: &str, detail: String| st.violation(ID, &format!("raster/{kind}"), format!("{detail} [qr: {}; spec: {}]", cfg.describe(), rj.spec.describe()), rj.to_json());
+    // the embedded image: a fully transparent PNG rendered by the crate itself (a tiny symbol in transparent colours)
+    let mut spec = rj.spec.clone();
+    let clear = {
+        let blank = Spec { module_color: Some(crate::render::Colour::Rgba([0, 0, 0, 0])), background: Some(crate::render::Colour::Rgba([0, 0, 0, 0])), ..Default::default() };
+        let tiny = adapter::build(&adapter::Config { input: b"0".to_vec(), mode: None, level: None, version: Some(1), mask: None });
+        match tiny {
+            Outcome::Ok(t) => adapter::guarded(|| blank.image_builder().to_bytes(&t)).ok().and_then(|r| r.ok()),
+            _ => None,
+        }
+    };
+    let clear = match clear {
+        Some(c) => c,
+        None => {
+            st.inconclusive("raster-route: cannot render the transparent image".to_string());
+            return;
+        }
+    };
+    spec.image = Some(format!("data:image/png;base64,{}", base64(&clear)));
+    let svg = match adapter::guarded(|| spec.svg_builder().to_str(&qr)) {
+        Ok(s) => s,
+        Err(p) => return fail(st, "render-panic", p),
+    };
+    let (frame, _image) = match frame_and_image(&svg) {
+        Ok(x) => x,
+        Err(v) => return fail(st, &v.0, v.1),
+    };
+    let (fx, fy, fw) = match (frame.num("x"), frame.num("y"), frame.num("width")) {
+        (Some(a), Some(b), Some(c)) => (a, b, c),
+        _ => return fail(st, "frame-attributes", format!("{:?}", frame.attrs)),
+    };
+    let pix = match adapter::guarded(|| spec.image_builder().to_pixmap(&qr)) {
+        Ok(p) => p,
+        Err(p) => return fail(st, "render-panic", p),
+    };
+    let units = qr.size + 2 * spec.margin_value();
+    let (w, h) = (pix.width() as usize, pix.height() as usize);
+    if w != units * 8 || h != units * 8 {
+        return fail(st, "pixmap-size", format!("pixmap is {w} x {h}, expected {} (8 px per module)", units * 8));
+    }
+    let data = pix.data();
+    let (mut x0, mut y0, mut x1, mut y1, mut count) = (usize::MAX, usize::MAX, 0usize, 0usize, 0u64);
+    for y in 0..h {
+        for x in 0..w {
+            let p = &data[(y * w + x) * 4..(y * w + x) * 4 + 4];
+            if p[0] > 200 && p[1] < 60 && p[2] < 60 && p[3] > 200 {
+                x0 = x0.min(x);
+                y0 = y0.min(y);
+                x1 = x1.max(x + 1);
+                y1 = y1.max(y + 1);
+                count += 1;
+            }
+        }
+    }
+    if count == 0 {
+        return fail(st, "frame-not-drawn", format!("no pixel has the frame colour; the document puts the frame at x={fx} y={fy} side {fw}"));
+    }
+    let (mx0, my0, mx1, my1) = (x0 as f64 / 8.0, y0 as f64 / 8.0, x1 as f64 / 8.0, y1 as f64 / 8.0);
+    const TOL: f64 = 0.1251; // one pixel
+    if (mx0 - fx).abs() > TOL || (my0 - fy).abs() > TOL || (mx1 - (fx + fw)).abs() > TOL || (my1 - (fy + fw)).abs() > TOL {
+        return fail(st, "frame-misplaced", format!("the frame covers [{mx0}, {mx1}] x [{my0}, {my1}] (module units, measured in the pixmap at 8 px per module); the SVG document of the same options puts it at [{fx}, {}] x [{fy}, {}]; requested position {:?}", fx + fw, fy + fw, spec.image_position));
+    }
+    // solid: the transparent image lets the whole frame show
+    let want = ((x1 - x0) * (y1 - y0)) as u64;
+    if count * 100 < want * 97 {
+        return fail(st, "frame-not-solid", format!("{count} of {want} pixels inside the measured frame have the frame colour"));
+    }
+    st.count("raster_frames_measured_against_the_svg_frame", 1);
+    st.reach("raster_override_shapes", (spec.image_size.is_some() as u64) | (spec.image_gap.is_some() as u64) << 1 | (spec.image_position.is_some() as u64) << 2);
+    st.distinct(mix(rj.job.key(&cfg.input), oracle::rng::fnv(rj.spec.describe().as_bytes())));
+}
+
 pub fn observe(_ctx: &Ctx, st: &mut Stats, rj: &RJob, widths: Option<&Widths>) {
+    if rj.job.fam == FAMS[2] {
+        return observe_raster(st, rj);
+    }
     let cfg = rj.job.config();
     st.eval();
     let qr = match adapter::build(&cfg) {
@@ -268,11 +396,11 @@ pub fn run(ctx: &Ctx) -> Report {
     st.count("version_to_version_width_comparisons", mono);
     let mut rep = Report::new(
         st,
-        "jobs = all 40 versions x 3 frame shapes x margins 0..=16 with default placement (2040 cases, enumerated completely) + sampled real-valued overrides (size in [1, size/2] plus {0.5, 1, 2, size}, gap in [0, 6] incl. exactly 0 and tiny gaps, position anywhere in [0, S] incl. 0, S, margin, S/2; integers, halves, 2-decimals and arbitrary reals; all 7 non-empty subsets of {size, gap, position}); the frame <rect> and <image> are read from the parsed XML tree and the statement is checked directly: centred, integer edges, side < 40% and clear of the three finder squares, non-decreasing in the version, image square/centred/not larger (defaults); requested size (2 decimals), frame-image in [2gap-1, 2gap], frame centred on the requested position (overrides); distinct key = (qr options, spec); every case non-trivial",
+        "jobs = all 40 versions x 3 frame shapes x margins 0..=16 with default placement (2040 cases, enumerated completely) + sampled real-valued overrides (size in [1, size/2] plus {0.5, 1, 2, size}, gap in [0, 6] incl. exactly 0 and tiny gaps, position anywhere in [0, S] incl. 0, S, margin, S/2; integers, halves, 2-decimals and arbitrary reals; all 7 non-empty subsets of {size, gap, position}); the frame <rect> and <image> are read from the parsed XML tree and the statement is checked directly: centred, integer edges, side < 40% and clear of the three finder squares, non-decreasing in the version, image square/centred/not larger (defaults); requested size (2 decimals), frame-image in [2gap-1, 2gap], frame centred on the requested position (overrides); + the raster route: 160 (thorough 4,000) option sets on a half-module grid given to ImageBuilder (Square frame in an opaque colour no module has, fully transparent embedded image, 8 px per module): the frame's pixel bounding box must coincide within one pixel with the frame element of the SVG document for the same options, and be solid; distinct key = (qr options, spec); every case non-trivial",
     );
     rep.exhaustive = Some(true);
-    rep.expected_sets = vec![("default_cells", 2040), ("override_shapes", 7)];
-    rep.required_sets = vec![("default_cells", 2040), ("override_shapes", 7)];
+    rep.expected_sets = vec![("default_cells", 2040), ("override_shapes", 7), ("raster_override_shapes", 8)];
+    rep.required_sets = vec![("default_cells", 2040), ("override_shapes", 7), ("raster_override_shapes", 8)];
     rep.min_evaluations = 5000;
     rep.assumptions = vec!["exhaustive refers to the default-placement space (version x frame shape x margin 0..16); overrides are sampled".into()];
     rep
